@@ -57,6 +57,8 @@ BUILTIN_EXC_PARENTS = {
     "ValueError": "Exception",
     "TypeError": "Exception",
     "KeyError": "LookupError",
+    "NotImplementedError": "RuntimeError",
+    "RuntimeError": "Exception",
     "LookupError": "Exception",
     "Exception": "BaseException",
 }
@@ -216,6 +218,11 @@ class Interp:
             if base is not None and name not in STR_METHODS:
                 if not base <= {"class_ser"}:
                     self.op(f"{src(f.value)}.{name}", c, base, {"AttributeError": base - {"class_ser"}}, env, f.value)
+                # the named class may be the serialiser base itself (or a subclass that does not override the hook):
+                # the default hook raises NotImplementedError
+                hook = self.prog.lookup(self.f.cls.qual, name)
+                if hook is not None and any(isinstance(x, ast.Raise) and "NotImplementedError" in src(x) for x in ast.walk(hook.node)) and (base & {"class_ser"}):
+                    self.op(f"{src(f.value)}.{name}() default hook", c, base & {"class_ser"}, {"NotImplementedError": base & {"class_ser"}})
                 return None
             q = self.mod.resolve(f)
             if q == "ext:importlib.import_module" and c.args:
